@@ -185,15 +185,16 @@ def named_records(quick, rng):
         if k < n:
           keys.append(k)
           cls.append('repeat')
-      keys += [rng.randrange(2 ** 200 if bits > 200 else 2 ** 100, n), (rng.randrange(2 ** 32, 2 ** 33) | 1) << 4]
-      cls += ['random', 'other']
+      keys += [rng.randrange(2 ** 200 if bits > 200 else 2 ** 100, n), (rng.randrange(2 ** 32, 2 ** 33) | 1) << 4,
+               n - (rng.randrange(2 ** 20, 2 ** 32) << 16)]
+      cls += ['random', 'other', 'other']
       ptsl = [rc.mul(k, rc.g) for k in keys]
       c3 = fresh()
       rec = R('named-%s-ext' % name, 'next', {'curve': name, 'cls': cls})
       try:
         res = c3.ExtendedBatchDL([lib(P) for P in ptsl])
         rec['obs'] = {'found': [x is not None for x in res],
-                      'correct': [x is not None and int(x) == k for x, k in zip(res, keys)]}
+                      'correct': [x is not None and (int(x) - k) % n == 0 for x, k in zip(res, keys)]}
       except Exception as e:  # pylint: disable=broad-except
         rec['raised'] = type(e).__name__
       recs.append(rec)
